@@ -1,4 +1,6 @@
 import BM.Proofs.Step
+import BM.Proofs.AttrsOK
+import BM.Proofs.Prov
 /-
   C02: only allowlisted attributes with accepted values.
 
@@ -97,6 +99,202 @@ theorem C02_never_bare (p : Policy) (st : LoopState) (t : Token) (ws : List Writ
   | closeTag h _ _ => rcases htt with h' | h' <;> simp [h'] at h
   | text h _ _ => rcases htt with h' | h' <;> simp [h'] at h
   | rawText h _ _ => rcases htt with h' | h' <;> simp [h'] at h
+
+/-! ### the whole of `sanitizeAttrs` -/
+
+/-- attributes the sanitiser itself adds or forces -/
+def forcedKey (k : Bytes) : Prop := k = b!"rel" ∨ k = b!"target" ∨ k = b!"crossorigin" ∨ k = b!"sandbox"
+/-- attributes whose value the URL pass may replace by its normalised form -/
+def urlKey (k : Bytes) : Prop := k = b!"href" ∨ k = b!"cite" ∨ k = b!"src"
+
+/-- why an attribute may be in the result of `sanitizeAttrs`: it is one the sanitiser adds or
+    forces, or it survived the first pass (so it is justified by the policy, on its original
+    decoded value) and carries that value — or, for href/cite/src, what the URL pass made of it -/
+def Kept (p : Policy) (el : Bytes) (aps : AttrRules) (attrs : List Attr) (b : Attr) : Prop :=
+  forcedKey b.key ∨ ∃ a ∈ attrs, ∃ b0, Justified p el aps a b0 ∧ b0.key = b.key ∧ (b.val = b0.val ∨ urlKey b.key)
+
+/-- a pass that keeps keys and changes values only of forced or URL attributes preserves `Kept` -/
+theorem kept_map {p : Policy} {el : Bytes} {aps : AttrRules} {attrs : List Attr} {l : List Attr} (f : Attr → Attr)
+    (hf : ∀ a, (f a).key = a.key ∧ ((f a).val = a.val ∨ forcedKey a.key ∨ urlKey a.key))
+    (h : ∀ b ∈ l, Kept p el aps attrs b) : ∀ b ∈ l.map f, Kept p el aps attrs b := by
+  intro b hb
+  simp only [List.mem_map] at hb
+  obtain ⟨a, ha, rfl⟩ := hb
+  obtain ⟨hk, hv⟩ := hf a
+  rcases h a ha with hforced | ⟨a0, ha0, b0, hj, hkey, hval⟩
+  · exact .inl (by rw [hk]; exact hforced)
+  · rcases hv with hv | hv | hv
+    · exact .inr ⟨a0, ha0, b0, hj, by rw [hk]; exact hkey, by
+        rcases hval with h' | h'
+        · exact .inl (by rw [hv]; exact h')
+        · exact .inr (by rw [hk]; exact h')⟩
+    · exact .inl (by rw [hk]; exact hv)
+    · exact .inr ⟨a0, ha0, b0, hj, by rw [hk]; exact hkey, .inr (by rw [hk]; exact hv)⟩
+
+theorem kept_append {p : Policy} {el : Bytes} {aps : AttrRules} {attrs : List Attr} {l : List Attr} (x : Attr)
+    (hx : forcedKey x.key) (h : ∀ b ∈ l, Kept p el aps attrs b) : ∀ b ∈ l ++ [x], Kept p el aps attrs b := by
+  intro b hb
+  simp only [List.mem_append, List.mem_singleton] at hb
+  rcases hb with hb | rfl
+  · exact h b hb
+  · exact .inl hx
+
+theorem kept_fixFirstTarget {p : Policy} {el : Bytes} {aps : AttrRules} {attrs : List Attr} :
+    ∀ {l : List Attr}, (∀ b ∈ l, Kept p el aps attrs b) → ∀ b ∈ fixFirstTarget l, Kept p el aps attrs b
+  | [], _ => by intro b hb; simp [fixFirstTarget] at hb
+  | a :: as, h => by
+    intro b hb
+    unfold fixFirstTarget at hb
+    split at hb
+    · rename_i hk
+      simp only [List.mem_cons] at hb
+      rcases hb with rfl | hb
+      · split
+        · exact h a (by simp)
+        · exact .inl (.inr (.inl (by simpa using hk)))
+      · exact h b (by simp [hb])
+    · simp only [List.mem_cons] at hb
+      rcases hb with rfl | hb
+      · exact h _ (by simp)
+      · exact kept_fixFirstTarget (fun x hx => h x (by simp [hx])) b hb
+
+theorem kept_urlPass {p : Policy} {el : Bytes} {aps : AttrRules} {attrs : List Attr} {l out : List Attr}
+    (h : ∀ b ∈ l, Kept p el aps attrs b) (hm : mapMOpt (p.urlPassAttr el) l = some out) :
+    ∀ b ∈ out, Kept p el aps attrs b := by
+  intro b hb
+  obtain ⟨a, ha, hab⟩ := mapMOpt_mem _ l out hm b hb
+  have hk := urlPassAttr_key p el a b hab
+  -- the value changes only when the key is href / cite / src
+  have hv : b.val = a.val ∨ urlKey a.key := by
+    by_cases h1 : a.key = b!"href"
+    · exact .inr (.inl h1)
+    · by_cases h2 : a.key = b!"cite"
+      · exact .inr (.inr (.inl h2))
+      · by_cases h3 : a.key = b!"src"
+        · exact .inr (.inr (.inr h3))
+        · have e1 : (a.key == b!"href") = false := by simpa using h1
+          have e2 : (a.key == b!"cite") = false := by simpa using h2
+          have e3 : (a.key == b!"src") = false := by simpa using h3
+          unfold Policy.urlPassAttr at hab
+          simp only [e1, e2, e3, Bool.false_eq_true, ↓reduceIte] at hab
+          repeat' split at hab
+          all_goals (simp at hab; subst hab; exact .inl rfl)
+  rcases h a ha with hforced | ⟨a0, ha0, b0, hj, hkey, hval⟩
+  · exact .inl (by rw [hk]; exact hforced)
+  · refine .inr ⟨a0, ha0, b0, hj, by rw [hk]; exact hkey, ?_⟩
+    rcases hv with hv | hv
+    · rcases hval with h' | h'
+      · exact .inl (by rw [hv]; exact h')
+      · exact .inr (by rw [hk]; exact h')
+    · exact .inr (by rw [hk]; exact hv)
+
+theorem kept_addNoOpener {p : Policy} {el : Bytes} {aps : AttrRules} {attrs : List Attr} {l : List Attr}
+    (h : ∀ b ∈ l, Kept p el aps attrs b) : ∀ b ∈ addNoOpener l, Kept p el aps attrs b := by
+  unfold addNoOpener
+  split
+  · refine kept_map _ ?_ h
+    intro a
+    split
+    · rename_i hk; exact ⟨rfl, .inr (.inl (.inl (by simpa using hk)))⟩
+    · exact ⟨rfl, .inl rfl⟩
+  · exact kept_append _ (.inl rfl) h
+
+theorem kept_relFix {p : Policy} {el : Bytes} {aps : AttrRules} {attrs : List Attr} {l : List Attr} (nf nr : Bool)
+    (h : ∀ b ∈ l, Kept p el aps attrs b) : ∀ b ∈ l.map (relFix nf nr), Kept p el aps attrs b := by
+  refine kept_map _ ?_ h
+  intro a
+  unfold relFix
+  split
+  · rename_i hk
+    simp only [Bool.and_eq_true, beq_iff_eq] at hk
+    exact ⟨rfl, .inr (.inl (.inl hk.1))⟩
+  · exact ⟨rfl, .inl rfl⟩
+
+theorem kept_hardenLinks {p : Policy} {el : Bytes} {aps : AttrRules} {attrs : List Attr} {l : List Attr}
+    (h : ∀ b ∈ l, Kept p el aps attrs b) : ∀ b ∈ p.hardenLinks el l, Kept p el aps attrs b := by
+  unfold Policy.hardenLinks
+  simp only
+  split
+  · exact h
+  · repeat' (first
+      | exact kept_relFix _ _ h
+      | apply kept_addNoOpener
+      | apply kept_fixFirstTarget
+      | apply kept_append _ (.inl rfl)
+      | apply kept_append _ (.inr (.inl rfl))
+      | split)
+
+theorem kept_forceCrossOrigin {p : Policy} {el : Bytes} {aps : AttrRules} {attrs : List Attr} {l : List Attr}
+    (h : ∀ b ∈ l, Kept p el aps attrs b) : ∀ b ∈ p.forceCrossOrigin el l, Kept p el aps attrs b := by
+  unfold Policy.forceCrossOrigin
+  split
+  · split
+    · refine kept_map _ ?_ h
+      intro a; unfold setVal; split
+      · rename_i hk; exact ⟨rfl, .inr (.inl (.inr (.inr (.inl (by simpa using hk)))))⟩
+      · exact ⟨rfl, .inl rfl⟩
+    · exact kept_append _ (.inr (.inr (.inl rfl))) h
+  · exact h
+
+theorem kept_forceSandbox {p : Policy} {el : Bytes} {aps : AttrRules} {attrs : List Attr} {l : List Attr}
+    (h : ∀ b ∈ l, Kept p el aps attrs b) : ∀ b ∈ p.forceSandbox el l, Kept p el aps attrs b := by
+  unfold Policy.forceSandbox
+  split
+  · split
+    · split
+      · refine kept_map _ ?_ h
+        intro a; unfold setVal; split
+        · rename_i hk; exact ⟨rfl, .inr (.inl (.inr (.inr (.inr (by simpa using hk)))))⟩
+        · exact ⟨rfl, .inl rfl⟩
+      · exact kept_append _ (.inr (.inr (.inr rfl))) h
+    · exact h
+  · exact h
+
+/-- **C02 for the whole of `sanitizeAttrs`** (every policy, element, attribute list): every
+    attribute it returns is one the sanitiser adds or forces (rel, target, crossorigin, sandbox),
+    or survived the first pass — hence is a well-formed data attribute with data attributes
+    enabled, the filtered style attribute, or accepted on its original decoded value by a rule
+    registered for the element (merged rules of every matching pattern) or globally — and still
+    carries that value, except that href/cite/src may carry the URL pass's normalisation of it. -/
+theorem C02_sanitizeAttrs (p : Policy) (el : Bytes) (attrs : List Attr) (aps : AttrRules) (out : List Attr)
+    (h : p.sanitizeAttrs el attrs aps = some out) : ∀ b ∈ out, Kept p el aps attrs b := by
+  unfold Policy.sanitizeAttrs at h
+  split at h
+  · rename_i he; simp at h; subst h; intro b hb; rw [List.isEmpty_iff.mp he] at hb; simp at hb
+  · simp only at h
+    have h1 : ∀ b ∈ attrs.filterMap (p.filterAttr el aps (p.hasStylePolicies el)), Kept p el aps attrs b := by
+      intro b hb
+      obtain ⟨a, ha, hj⟩ := firstPass_justified p el aps attrs b hb
+      exact .inr ⟨a, ha, b, hj, rfl, .inl rfl⟩
+    split at h
+    · simp at h; subst h; exact h1
+    · simp only [Option.map_eq_some_iff] at h
+      obtain ⟨mid, hmid, rfl⟩ := h
+      apply kept_forceSandbox
+      apply kept_forceCrossOrigin
+      unfold Policy.linkPasses at hmid
+      split at hmid
+      · simp only [Option.map_eq_some_iff] at hmid
+        obtain ⟨m2, hm2, rfl⟩ := hmid
+        have h2 : ∀ b ∈ m2, Kept p el aps attrs b := by
+          split at hm2
+          · exact kept_urlPass h1 hm2
+          · simp at hm2; subst hm2; exact h1
+        split
+        · exact kept_hardenLinks h2
+        · exact h2
+      · simp at hmid; subst hmid; exact h1
+
+/-- **C02 (byte level, plain policies)**: every attribute on every start or self-closing tag an
+    HTML tokenizer reads from the returned bytes is `Kept` for an input tag of that element. -/
+theorem C02_bytes (p : Policy) (hp : Plain p.ensureInit) (input : Bytes) :
+    ∀ k ∈ tokenize (p.sanitizeCore input), (k.tt = .start ∨ k.tt = .selfClosing) →
+      ∀ b ∈ k.attrs, ∃ t ∈ tokenize input, ∃ aps, t.data = k.data ∧
+        p.ensureInit.attrRulesFor k.data = some aps ∧ Kept p.ensureInit k.data aps t.attrs b := by
+  intro k hk htt b hb
+  have hne : k.attrs ≠ [] := by intro h; rw [h] at hb; simp at hb
+  obtain ⟨t, ht, aps, hd, hr, hs⟩ := reread_open_tag p hp input k hk htt hne
+  exact ⟨t, ht, aps, hd, hr, C02_sanitizeAttrs p.ensureInit k.data t.attrs aps k.attrs hs b hb⟩
 
 /-- non-vacuity: two overlapping rules, the value matches only the second -/
 example :
